@@ -166,6 +166,16 @@ CHECKS = {
             'table, attributes and removed atoms must be equal. match_order is checked on all 15x15 order pairs x 16 residue-number pairs.',
             'Replace of an attribute the same link matches on, non-edges on non-zero-order anchors and removals of a link\'s own additions are '
             'outside the grammar; features alone and in pairs, not triples.', '§4 C05'),
+    'C11': ('C', 'deviation-bounded exhaustive exploration of input presentations (every 1-deviation: atom transpositions, hydrogen renamings, exact rigid motions, hash seeds) through bin/martinize2\'s own entry(), differential oracle on canonical ITP/TOP/PDB records',
+            'model_checking',
+            'For each base input (tri-alanine and 4-residue peptides cut from the shipped test structures incl. HIS, TRP/CYS, MET and a '
+            'disulfide; thorough: 12 inputs covering all 20 residue types) and option set (default, -elastic, -p backbone, -ss, -nt, -cys none, '
+            '-ff martini22) the unmodified presentation and EVERY presentation one deviation away are run through the script\'s entry(): each '
+            'adjacent transposition of atoms within each residue, each hydrogen renamed and all at once, each of the 24 axis rotations with a '
+            'decimal translation applied to the PDB text, and each hash seed of the seed set in its own interpreter. Parsed ITP atoms and '
+            'interactions, the .top and the coordinates (after undoing the motion) must equal those of the reference presentation. The in-process '
+            'driver is bound to real sub-process runs for every base input.',
+            'Up to 2 deviations (thorough) from the given presentation; 24 axis rotations only; a finite hash-seed set; 3-6 residue inputs.', '§4 C11'),
     'C07': ('A+D', 'explicit-state BFS over deferred-writer histories with a dict file-system model; exhaustive crash-point/torn-write enumeration of every finalisation; audit-hook monitor over all library writers; full product of a CLI run alphabet through the script\'s own entry() bound to real sub-processes',
             'model_checking',
             'Four layers. (1) every enabled operation (open w/a/r+/wb incl. re-opens, files appearing from outside, write, close) in every '
